@@ -1,4 +1,6 @@
 """C19 - Hill form is a canonical, composition-preserving normal form."""
+from contracts import formulas as F
+
 ID = "C19"
 LEVEL = "other"
 TRUSTED = ["A3 sorted() is a stable permutation ordered by key"]
@@ -6,7 +8,7 @@ EXPLANATION = "see DESIGN.md C19"
 
 
 def units(tier):
-    return []
+    return [F.U_HILL, F.U_COUNT_ATOMS, F.U_ATOMS]
 
 
 def runner_tasks(tier):
